@@ -8,6 +8,7 @@ from pygradflow.implicit_func import ScaledImplicitFunc
 from pygradflow.iterate import Iterate
 from pygradflow.params import Params
 from pygradflow.problem import Problem
+from pygradflow.step.step_solver_error import StepSolverError
 
 from .step_solver import StepResult, StepSolver
 
@@ -95,7 +96,9 @@ class ScaledStepSolver(StepSolver):
         lamb = 1.0 / self.dt
         fact = 1.0 / (1.0 + lamb * rho)
 
-        assert fact > 0.0
+        # Product may overflow for huge penalty parameters
+        if not fact > 0.0:
+            raise StepSolverError("Penalty parameter too large")
 
         b2t = fact * b2
 
